@@ -94,6 +94,7 @@ func init() {
 		"context.WithValue":        hCtxWithValue,
 		"slices.Contains":          hSlicesContains,
 		"errors.Is":                hErrorsIs,
+		"errors.Join":              hErrorsJoin,
 		"errors.As":                hErrorsAs,
 		"(*sync.WaitGroup).Done":   hGhostCount("wgDone"),
 		"(*sync.WaitGroup).Add":    hGhostCount("wgAdd"),
@@ -298,6 +299,22 @@ func containsTerm(st *State, s Val, v Val) *Term {
 func hSlicesContains(x *Exec, fr *Frame, st *State, site ssa.Instruction, callee *ssa.Function, args []Val, k Kont) {
 	x.assumeNote("assumed contract slices.Contains: reports whether v is present in s (exists k: s[k] == v); pure")
 	k(st, Val{T: types.Typ[types.Bool], C: []*Term{containsTerm(st, args[0], args[1])}}, false)
+}
+
+// errors.Join(errs...): nil exactly when every element is nil; reads its argument only.
+func hErrorsJoin(x *Exec, fr *Frame, st *State, site ssa.Instruction, callee *ssa.Function, args []Val, k Kont) {
+	x.assumeNote("assumed contract errors.Join: returns nil exactly when every argument is nil, otherwise a fresh non-nil error; reads its arguments only")
+	s := args[0]
+	et := s.T.Underlying().(*types.Slice).Elem()
+	name := "[]" + typeKey(et) + "|" + layoutOf(et)[0].Path
+	h := st.heapMap(name, ArraySort(IntSort, ArraySort(BV64, layoutOf(et)[0].Sort)))
+	kk := BoundVar("k!join", BV64)
+	elemTyp := Select(Select(h, s.Arr()), BVBin("bvadd", s.Off(), kk))
+	allNil := Forall([]*Term{kk}, Implies(And(BVCmp("bvsle", bv64(0), kk), BVCmp("bvslt", kk, s.Len())), Eq(elemTyp, IntConst(0))), []*Term{elemTyp})
+	res := Val{T: callee.Signature.Results().At(0).Type(), C: []*Term{FreshVar("join.typ", IntSort), st.alloc()}}
+	st.assume(IntCmp(">=", res.C[0], IntConst(0)))
+	st.assume(Eq(Eq(res.C[0], IntConst(0)), allNil))
+	k(st, Val{T: res.T, C: []*Term{res.C[0], Ite(Eq(res.C[0], IntConst(0)), IntConst(0), res.C[1])}}, false)
 }
 
 // hNonNilIface: a constructor returning a non-nil interface value.
